@@ -555,6 +555,16 @@ func (in *Interp) bindParams(env *Env, info *types.Info, ft *ast.FuncType, sig *
 			k++
 		}
 	}
+	// named results start at their zero value
+	if ft.Results != nil {
+		for _, f := range ft.Results.List {
+			for _, nm := range f.Names {
+				if o := info.Defs[nm]; o != nil {
+					env.define(o, in.zero(o.Type()))
+				}
+			}
+		}
+	}
 }
 
 type spreadV struct{ S Val }
@@ -618,8 +628,16 @@ func (in *Interp) exec(pkg *packages.Package, env *Env, s ast.Stmt) ctl {
 	case *ast.AssignStmt:
 		return in.assign(pkg, env, st)
 	case *ast.IncDecStmt:
-		// counters are not tracked
-		in.store(pkg, env, st.X, Unk{"incdec"})
+		// integer counters with a known value are tracked
+		if cv, ok := in.eval(pkg, env, st.X).(ConstV); ok && cv.V != nil && cv.V.Kind() == constant.Int {
+			op := token.ADD
+			if st.Tok == token.DEC {
+				op = token.SUB
+			}
+			in.store(pkg, env, st.X, ConstV{V: constant.BinaryOp(cv.V, op, constant.MakeInt64(1)), T: cv.T})
+		} else {
+			in.store(pkg, env, st.X, Unk{"incdec"})
+		}
 	case *ast.ReturnStmt:
 		var vals []Val
 		for _, r := range st.Results {
